@@ -152,6 +152,13 @@ func mutatingDoc(r *Rng) []interface{} {
 			doc = append(doc, nRaw(sVar("rh", eCall(eId("range"), eNum("3")))), nRaw(sExpr(eCall(eDot(eId("rh"), "pop")))), nText("rh="),
 				nBuf(eCall(eDot(eId("rh"), "join"), eStr(",")), true), nText(";"))
 		},
+		// JSON.parse of a constant text gives every call its own object: what one render does to it is invisible to every other
+		func() {
+			doc = append(doc, nRaw(sVar("cfg", eCall(eDot(eId("JSON"), "parse"), eStr(`{"user":"","items":[1,2]}`)))),
+				nRaw(sAssign(eDot(eId("cfg"), "user"), eIdx(eId("xs"), eNum("3")))),
+				nRaw(sExpr(eCall(eDot(eDot(eId("cfg"), "items"), "push"), eIdx(eId("xs"), eNum("3"))))), nText("cfg="),
+				nBuf(eDot(eId("cfg"), "user"), true), nText("/"), nBuf(eCall(eDot(eDot(eId("cfg"), "items"), "join"), eStr(",")), true), nText(";"))
+		},
 		// two top-level data keys that differ only in the case of their first letter: both define the variable `foo`
 		func() {
 			doc = append(doc, nText("foo="), nBuf(eId("foo"), true), nText("/Foo="), nBuf(eId("Foo"), true), nText("/bar="), nBuf(eId("bar"), true), nText(";"))
